@@ -455,3 +455,30 @@ func (si *svcInfo) method(name string) *methodInfo {
 	}
 	return nil
 }
+
+func (si *svcInfo) removed(name string) *methodInfo {
+	for _, m := range si.Removed {
+		if m.Name == name {
+			return m
+		}
+	}
+	return &methodInfo{}
+}
+
+// regressionProgram is the minimal witness of the defect fixed by 6b9b20c (streaming functions of services in INCLUDED
+// files were not removed): b.thrift declares Base with a unary and a client-streaming function, a.thrift's Main extends it.
+func regressionProgram() (*idlgen.Program, map[*idlgen.Function]string) {
+	stream := func(name, mode string, ret *idlgen.Type) *idlgen.Function {
+		return &idlgen.Function{Name: name, Ret: ret, Args: []*idlgen.Field{{ID: 1, HasID: true, Name: "a0", Type: base(idlgen.I32),
+			Default: &idlgen.Const{Kind: idlgen.CInt, Text: `5) (streaming.mode = "` + mode + `"`, Val: values.Int(5)}}}}
+	}
+	u, c, mu := stream("u", "unary", nil), stream("c", "client", base(idlgen.I32)), stream("mu", "bidirectional", nil)
+	b := &idlgen.File{Path: "b.thrift", GoNS: "pb",
+		Structs:  []*idlgen.Struct{{Kind: 's', Name: "SB", Fields: []*idlgen.Field{{ID: 1, HasID: true, Name: "x", Type: base(idlgen.I32)}}}},
+		Services: []*idlgen.Service{{Name: "Base", Functions: []*idlgen.Function{{Name: "ping"}, u, c}}}}
+	a := &idlgen.File{Path: "a.thrift", GoNS: "pa", Includes: []int{1},
+		Structs: []*idlgen.Struct{{Kind: 's', Name: "SA", Fields: []*idlgen.Field{{ID: 1, HasID: true, Name: "x", Type: base(idlgen.I32)}}}},
+		Services: []*idlgen.Service{{Name: "Main", Extends: &idlgen.NamedRef{File: 1, Name: "Base"},
+			Functions: []*idlgen.Function{{Name: "m", Ret: base(idlgen.I32), Args: []*idlgen.Field{{ID: 1, HasID: true, Name: "a0", Type: base(idlgen.I32)}}}, mu}}}}
+	return &idlgen.Program{Files: []*idlgen.File{a, b}}, map[*idlgen.Function]string{u: "unary", c: "client", mu: "bidirectional"}
+}
